@@ -180,6 +180,9 @@ def _run(ctx, case, net):
     ctx.clause("master_table_invariant", tinv["n"])
     ctx.count("baton_switches", world.n_switches)
     ctx.count("air_packets", len(net.air.log))
+    ctx.distinct("air_order_digests", net.air_digest())
+    for st in net.radio_states():
+        ctx.distinct("radio_states", st)
     # ---- exceptions / termination: judged on every medium
     for nn in net.nodes:
         e = nn.wnode.exc
